@@ -16,11 +16,12 @@ import DPL.Model.Accountant
 namespace DPL
 namespace Cont
 
-/-- `math.erf` — not in Lean core.  An extra operation of the carrier: a numerical implementation for `Float`
-(below, within 1 ulp of glibc's `erf` in absolute terms), an ARBITRARY function in the theorems (they hold for every
-`erf`, hence for the true one). -/
+/-- `math.erf` / `math.erfc` — not in Lean core.  Extra operations of the carrier: numerical implementations for
+`Float` (below; `erf` within 1 ulp of glibc's in absolute terms, `erfc` to a few ulp relative), ARBITRARY functions in
+the theorems (they hold for every `erf`/`erfc`, hence for the true ones). -/
 class HasErf (α : Type) where
   erf : α → α
+  erfc : α → α
 
 /-! ### `erf` on doubles -/
 
@@ -73,7 +74,14 @@ def erfFloat (x : Float) : Float :=
            else 1 - erfcCf a
   if x < 0 then -r else r
 
-instance : HasErf Float := ⟨erfFloat⟩
+/-- `erfc`: continued fraction for `|x| ≥ 1` (no cancellation for large positive `x`), `1 - erf` near 0 -/
+def erfcFloat (x : Float) : Float :=
+  if x.isNaN then x else
+  if x ≥ 1.0 then (if x > 27.5 then 0.0 else erfcCf x)
+  else if x ≤ -1.0 then (if x < -6.5 then 2.0 else 2 - erfcCf (-x))
+  else 1 - erfFloat x
+
+instance : HasErf Float := ⟨erfFloat, erfcFloat⟩
 
 section
 variable {α : Type} [OfNat α 0] [OfNat α 1] [OfNat α 2] [Add α] [Sub α] [Mul α] [Div α] [Neg α]
@@ -178,6 +186,7 @@ def pyMin2 (a b : α) : α := if b < a then b else a
 iteration count -/
 def bdScale (eps delta sens diam : α) (fuel : Nat := 4000) : α × Nat :=
   let dq := pyMin2 sens diam
+  if feq dq 0 then (0, 0) else          -- `if delta_q == 0: return 0.0`
   let f := bdF eps delta dq diam
   let left := dq / (eps - Transc.log (1 - delta))
   let right := f left
@@ -188,8 +197,8 @@ def bdScale (eps delta sens diam : α) (fuel : Nat := 4000) : α × Nat :=
 
 variable [HasErf α]
 
-/-- `phi(val) = (1 + erf(val / np.sqrt(2))) / 2` -/
-def phi (x : α) : α := (1 + HasErf.erf (x / Transc.sqrt 2)) / 2
+/-- `phi(val) = erfc(-val / np.sqrt(2)) / 2` (the normal cdf; since commit ae54110 without `1 + erf`) -/
+def phi (x : α) : α := HasErf.erfc ((-x) / Transc.sqrt 2) / 2
 
 /-- `b_plus(val)` -/
 def bPlus (eps delta v : α) : α :=
